@@ -136,7 +136,22 @@ fn reference_group_definition(h: &H, r: &mut Rng) -> Option<H> {
     if done { Some(out) } else { None }
 }
 
+// The clamped recursive functions the generator plants inside types (`trec…`): a perturbation
+// inside one of them makes the *checker* diverge, which tells nothing and costs a watchdog period.
+fn type_level_recursions(h: &H) -> Vec<H> {
+    let mut v = vec![];
+    crate::props::c08::walk(h, &mut |x| {
+        if let H::Let(n, _, d, _) = x {
+            if n.starts_with("trec") {
+                v.push((**d).clone());
+            }
+        }
+    });
+    v
+}
+
 pub fn perturb(h: &H, r: &mut Rng) -> Option<(H, &'static str)> {
+    let protected = type_level_recursions(h);
     if r.chance(1, 8) {
         if let Some(x) = reference_group_definition(h, r) {
             return Some((x, "reference-group-definition"));
@@ -191,6 +206,9 @@ pub fn perturb(h: &H, r: &mut Rng) -> Option<(H, &'static str)> {
             res
         });
         if done {
+            if !protected.is_empty() && type_level_recursions(&out) != protected {
+                continue;
+            }
             return Some((out, kind));
         }
     }
